@@ -54,6 +54,24 @@ def delimited_jelly_hint(header: bytes) -> bool:
     )
 
 
+class _Prepended(io.RawIOBase):
+    """Raw stream that replays the bytes in ``head`` and then continues with ``tail``."""
+
+    def __init__(self, head: bytes, tail: IO[bytes]) -> None:
+        self._head = head
+        self._tail = tail
+
+    def readable(self) -> bool:
+        return True
+
+    def readinto(self, buffer: bytearray) -> int:  # type: ignore[override]
+        if self._head:
+            size = min(len(buffer), len(self._head))
+            buffer[:size], self._head = self._head[:size], self._head[size:]
+            return size
+        return self._tail.readinto(buffer)  # type: ignore[attr-defined, no-any-return]
+
+
 def frame_iterator(inp: IO[bytes]) -> Generator[jelly.RdfStreamFrame]:
     while frame := parse_length_prefixed(jelly.RdfStreamFrame, inp):
         yield frame
@@ -82,8 +100,13 @@ def get_options_and_frames(
         # Input may not be seekable (e.g. a network stream) -- then we need to buffer
         # it to determine if it's delimited.
         # See also: https://github.com/Jelly-RDF/pyjelly/issues/298
-        inp = io.BufferedReader(inp)  # type: ignore[arg-type, type-var, unused-ignore]
-        is_delimited = delimited_jelly_hint(inp.peek(3))
+        # A single raw read (which is all that BufferedReader.peek does) may return
+        # fewer than 3 bytes although more follow: only end of input may cut the header.
+        header = b""
+        while len(header) < 3 and (chunk := inp.read(3 - len(header))):  # noqa: PLR2004
+            header += chunk
+        is_delimited = delimited_jelly_hint(header)
+        inp = io.BufferedReader(_Prepended(header, inp))  # type: ignore[arg-type, type-var, unused-ignore]
     else:
         is_delimited = delimited_jelly_hint(bytes_read := inp.read(3))
         inp.seek(-len(bytes_read), os.SEEK_CUR)
